@@ -230,3 +230,50 @@ def check(prog, run):
             run.report(r, "%s:ASTSchemaPrinter.__call__:sort-key" % PR, call.where(s), "a definition list is not sorted by name")
     if len(sorts) < 2:
         run.report(r, "%s:ASTSchemaPrinter.__call__:unsorted" % PR, call.where(), "types/directives are not both sorted: output follows registration order")
+
+    # ---- P5 writer/reader agreement: every definition the printer can emit is one the builder accepts
+    r = run.rule("P5", "the definitions ASTSchemaPrinter.__call__ can emit under some option are definitions the schema builder "
+                       "accepts: a collection C whose members are printed as definitions must not be a collection whose names the "
+                       "builder of the same kind of map refuses for any object other than the member itself (an SDL-built "
+                       "element is always a new object)", 2)
+    SCHEMA = "py_gql.schema.schema"
+    emitted = []
+    for n in ast.walk(call.node):
+        if isinstance(n, (ast.GeneratorExp, ast.ListComp)) and isinstance(n.elt, ast.Call) and isinstance(n.elt.func, ast.Attribute) \
+                and n.elt.func.attr.startswith("print_") and len(n.generators) == 1 and isinstance(n.generators[0].iter, ast.Name):
+            emitted.append((n.generators[0].iter.id, n.elt.func.attr, n))
+    for coll, via, n in emitted:
+        r.instance("printer emits %s(x) for x in %s" % (via, coll))
+    refused = {}
+    for f in prog.all_funcs():
+        if f.module.name != SCHEMA:
+            continue
+        seeded = {}
+        for n in own_nodes(f.node):
+            if isinstance(n, ast.Assign) and isinstance(n.value, ast.DictComp) and isinstance(n.value.generators[0].iter, ast.Name) \
+                    and n.value.generators[0].iter.id.isupper():
+                seeded[ast.unparse(n.targets[0])] = n.value.generators[0].iter.id
+        for n in own_nodes(f.node):
+            if isinstance(n, ast.If) and shapes.raises_unconditionally(n.body) and isinstance(n.test, ast.Compare) \
+                    and isinstance(n.test.ops[0], ast.IsNot) and isinstance(n.test.comparators[0], ast.Subscript):
+                table = ast.unparse(n.test.comparators[0].value)
+                # the guard: name in <names of the seeded collection>
+                par = getattr(n, "_parent", None)
+                if table in seeded and isinstance(par, ast.If) and n in par.body and "SPECIFIED" in ast.unparse(par.test).upper():
+                    refused[seeded[table]] = (f, n)
+    for coll, (f, n) in refused.items():
+        r.instance("%s refuses any other object named like a member of %s" % (f.qualname, coll))
+    for coll, via, n in emitted:
+        if coll in refused:
+            f, g = refused[coll]
+            cond = None
+            cur = n
+            while getattr(cur, "_parent", None) is not None and cur is not call.node:
+                par = cur._parent
+                if isinstance(par, ast.IfExp) and cur is par.body:
+                    cond = ast.unparse(par.test)
+                cur = par
+            run.report(r, "%s:ASTSchemaPrinter.__call__:emits-refused-definitions(%s)" % (PR, coll), call.where(n),
+                       "with %s the printer emits a definition for every member of %s, and %s (%s) raises for any object of such a "
+                       "name that is not the member itself: the printed SDL cannot be built back into a schema"
+                       % (cond or "some option", coll, f.qualname, f.where(g)))
